@@ -767,21 +767,15 @@ def varSwap (k : Kind) (trk : Nat → Bool) (m : Mem) (a ixa b ixb tv : Nat) : E
         | .error e => .error e
         | .ok m4 => .ok (m4, if b = a then ixb' else ixa', ixb')
 
-/-- `optional<T> = t` / `optional<T> = move(t)` with `t` of type `T`: `operator=(U&&)` is constrained away for
-    `decay_t<U> = T` (`not is_same_v<T, decay_t<U>>`; its body, which since 48efb47 assigns through when engaged,
-    is reached only for `U ≠ T`), so the operand is converted to a temporary `optional` (slot `tv`) through
-    `optional(U&&)`, the temporary is move-assigned by the defaulted `operator=(optional&&)` (the variant's
-    `assign`: same index → assign through, else destroy + construct) and destroyed -/
-def optAssignValue (k : Kind) (trk : Nat → Bool) (m : Mem) (s ix tv : Nat) (h : How) : Except LErr (Mem × Nat) :=
-  match vConstruct k trk m tv 1 h with
-  | .error e => .error e
-  | .ok m1 =>
-    match varAssignFrom k trk true m1 s ix tv 1 with
-    | .error e => .error e
-    | .ok (m2, ix') =>
-      match vDestroy trk m2 tv 1 with
-      | .error e => .error e
-      | .ok m3 => .ok (m3, ix')
+/-- `optional<T> = t` / `optional<T> = move(t)` with `t` of type `T`: since the constraint of `operator=(U&&)` reads
+    as in [optional.assign] (`not (is_scalar_v<T> and is_same_v<T, decay_t<U>>)`, fix 87be246 of branch fix-c07r) the
+    member template is selected for a class type `T`: `if (has_value()) **this = forward<U>(v); else emplace(forward<U>(v));`
+    — the variant's converting assignment with alternative 1 selected; no temporary optional any more (`tv` unused) -/
+def optAssignValue (k : Kind) (trk : Nat → Bool) (m : Mem) (s ix _tv : Nat) (h : How) : Except LErr (Mem × Nat) :=
+  match h with
+  | .copy src => varAssignValue k trk false m s ix 1 src
+  | .move src => varAssignValue k trk true m s ix 1 src
+  | .value v => varEmplace k trk m s ix 1 (.value v)
 
 /-- `visit` / `operator*` / `get`: a member function of the live alternative runs -/
 def varUse (trk : Nat → Bool) (m : Mem) (s ix : Nat) : Except LErr (Option Nat) :=
